@@ -99,15 +99,26 @@ static inline WResult write_file(const WCfg &c, const Bytes &content, const std:
     zck_free(&z); close(fd); return r;
 }
 
+// Pins for header validation (type, digest as hex string, total header length); unset members are not pinned.
+struct Pins { int type = -1; std::string digest_hex; long length = -1; bool any() const { return type >= 0 || !digest_hex.empty() || length >= 0; } };
+static inline bool open_pinned(zckCtx *z, int fd, const Pins &p) {
+    if (!zck_init_adv_read(z, fd)) return false;
+    if (p.type >= 0 && !zck_set_ioption(z, ZCK_VAL_HEADER_HASH_TYPE, p.type)) return false;
+    if (!p.digest_hex.empty() && !zck_set_soption(z, ZCK_VAL_HEADER_DIGEST, p.digest_hex.data(), p.digest_hex.size())) return false;
+    if (p.length >= 0 && !zck_set_ioption(z, ZCK_VAL_HEADER_LENGTH, p.length)) return false;
+    return zck_read_lead(z) && zck_read_header(z);
+}
+static inline std::string hex_of(const Bytes &b) { static const char *d = "0123456789abcdef"; std::string s; for (uint8_t x : b) { s += d[x >> 4]; s += d[x & 15]; } return s; }
+
 struct RResult {
     bool open_ok = false, read_ok = false, close_ok = false; std::string err; Bytes data;
     bool all_ok() const { return open_ok && read_ok && close_ok; }
 };
 // Open, read to end of stream with the cyclic buffer-size list, close.
-static inline RResult read_file(const Bytes &file, const std::vector<size_t> &sizes, size_t cap = (size_t)1 << 30) {
+static inline RResult read_file(const Bytes &file, const std::vector<size_t> &sizes, size_t cap = (size_t)1 << 30, const Pins *pins = nullptr) {
     RResult r; int fd = mkfd(file);
     zckCtx *z = zck_create();
-    if (!zck_init_read(z, fd)) { r.err = std::string("open: ") + zck_get_error(z); zck_free(&z); close(fd); return r; }
+    if (!(pins && pins->any() ? open_pinned(z, fd, *pins) : zck_init_read(z, fd))) { r.err = std::string("open: ") + zck_get_error(z); zck_free(&z); close(fd); return r; }
     r.open_ok = true; r.read_ok = true;
     std::vector<char> buf; size_t k = 0;
     for (;;) {
